@@ -53,4 +53,8 @@ PROPS = {
         "quick": {"shards": 8, "timeout_s": 900, "floors": {"distinct_nontrivial": 40, "expired_tracks": 100, "tracks_handed_out": 100, "calls_with_expired_tracks_still_in_live_store": 20, "idle_tracks_listed": 50, "tracks_cleared": 10, "gc_timing_variants_compared": 50, "steps_checked": 3000}},
         "thorough": {"shards": 16, "timeout_s": 3400, "floors": {"distinct_nontrivial": 3000}},
     },
+    "C02": {
+        "quick": {"shards": 8, "timeout_s": 900, "floors": {"distinct_nontrivial": 1000, "layerA_exhaustive_matrices": 1900000, "layerB_calls_decided": 3000, "layerB_calls_where_greedy_is_suboptimal": 100, "layerB_gated_pairs": 5000}},
+        "thorough": {"shards": 16, "timeout_s": 3400, "floors": {"distinct_nontrivial": 20000, "layerB_calls_where_greedy_is_suboptimal": 5000}},
+    },
 }
